@@ -27,7 +27,7 @@ COMPONENTS = {"real": ["bioscrape.lineage LineageModel / LineageCSimInterface / 
                        "bioscrape.types Schnitz / Lineage", "bioscrape.random (scripted in skew_split runs)"], "stub": []}
 TIERS = {
     "quick": {"cases": 3000, "block": 100, "case_timeout": 60.0},
-    "thorough": {"cases": 200000, "block": 250, "case_timeout": 90.0},
+    "thorough": {"cases": 100000, "block": 250, "case_timeout": 90.0},
 }
 
 
@@ -129,6 +129,8 @@ def run_partition(case):
         for s in order:
             stats["mode_" + le.species_mode(lm, s)] = stats.get("mode_" + le.species_mode(lm, s), 0) + 1
     stats["splitter_" + lm["splitter"]["kind"]] = 1
+    if lm["splitter"].get("earlier_options"):
+        stats["fired_splitter_reconfigured"] = 1
     return {"violations": viols, "stats": stats, "sig": repr(("partition", lm["splitter"], case["mother"], case.get("skew"))),
             "nontrivial": total > 0, "digest": h.hexdigest(), "sim_time": 0.0}
 
@@ -221,7 +223,7 @@ def reach_warnings(stats):
               "div_rule_volume", "div_rule_deltav", "div_rule_general", "div_event", "growth_rule_linear",
               "growth_rule_multiplicative", "growth_rule_ode", "growth_event_linear", "growth_event_multiplicative",
               "growth_event_general", "death_event", "death_rule_species", "safe_runs", "division_trigger_event",
-              "division_trigger_rule"):
+              "division_trigger_rule", "fired_splitter_reconfigured"):
         if stats.get(k, 0) == 0:
             out.append(f"kind {k} never fired in this batch")
     return out
